@@ -40,6 +40,7 @@ We can check the Eckmann-Hilton argument, up to interchanger.
 """
 
 from discopy import cat, messages, drawing, rewriting
+from discopy import _verif
 from discopy.cat import Ob
 
 
@@ -352,6 +353,8 @@ class Diagram(cat.Arrow):
             layers = layers >> cat.Id(cod)
         self._layers, self._offsets = layers, tuple(offsets)
         super().__init__(dom, cod, boxes, _scan=False)
+        if _verif.ENABLED:
+            _verif.on_construct(self)
 
     @property
     def offsets(self):
